@@ -55,6 +55,20 @@ def _const(e):
     return None
 
 
+def _bool_hooks(f):
+    """parameters of f with a constant boolean default (event=True, without_event=False): name -> default"""
+    a = f.node.args
+    out = {}
+    pos = a.posonlyargs + a.args
+    for arg, d in zip(pos[len(pos) - len(a.defaults):], a.defaults):
+        if isinstance(d, ast.Constant) and isinstance(d.value, bool):
+            out[arg.arg] = d.value
+    for arg, d in zip(a.kwonlyargs, a.kw_defaults):
+        if d is not None and isinstance(d, ast.Constant) and isinstance(d.value, bool):
+            out[arg.arg] = d.value
+    return out
+
+
 class C16:
     def __init__(self, ctx: Ctx, rep: Report):
         self.ctx, self.rep = ctx, rep
@@ -324,15 +338,18 @@ class C16:
                     e_, pos = n.ast, True
                     while isinstance(e_, ast.UnaryOp) and isinstance(e_.op, ast.Not):
                         e_, pos = e_.operand, not pos
-                    if isinstance(e_, ast.Name) and e_.id in ("event", "without_event"):
-                        silent = e_.id == "without_event"
+                    if isinstance(e_, ast.Name) and e_.id in _bool_hooks(f):
+                        silent = not _bool_hooks(f)[e_.id]          # the default is the loud value
                         hooks.add((n.id, "T" if silent == pos else "F"))
             pth = g.reach([m.id for m in muts], lambda n: n is g.exit, avoid=ev, follow=lambda a, b, l: l != "exc" and (a, l) not in hooks)
             rep.check("C16.P4", "MockProvider.%s" % name, f, pth is None, "%d mutation node(s), all followed by an event" % len(muts),
                       "a change of the mock tree in %s is not followed by an event: the engine never learns about it" % name, witness=describe_path(pth) if pth else None)
         # the event=False exception is used only for the children of a renamed folder
         rn = mk.methods["rename"]
-        quiet = [n for n in ctx.own_nodes(rn) if isinstance(n, ast.Call) and any(k.arg == "event" and isinstance(k.value, ast.Constant) and k.value.value is False for k in n.keywords)]
+        rso = mk.methods["_rename_single_object"]
+        hk = _bool_hooks(rso)
+        quiet = [n for n in ctx.own_nodes(rn) if isinstance(n, ast.Call) and pat.match("self._rename_single_object($$$)", n) is not None
+                 and any(k.arg in hk and isinstance(k.value, ast.Constant) and k.value.value is (not hk[k.arg]) for k in n.keywords)]
         ok = all(any(isinstance(lp, ast.For) and any(x is n for x in ast.walk(lp)) for lp in ctx.own_nodes(rn)) for n in quiet)
         loud = [n for n in ctx.own_nodes(rn) if isinstance(n, ast.Call) and pat.match("self._rename_single_object($O, $P)", n) is not None]
         rep.check("C16.P4", "MockProvider.rename|parent-event", rn, ok and len(loud) >= 2, "only children are renamed silently; the renamed object itself emits its event",
@@ -340,16 +357,17 @@ class C16:
 
         # the silent-delete test hook is used by no production call site
         dl = mk.methods["_delete"]
-        hook = [a.arg for a in dl.node.args.args[2:]] + [a.arg for a in dl.node.args.kwonlyargs]
-        if "without_event" not in hook:
-            raise AnalysisError("MockProvider._delete lost its `without_event` hook (positive control of the hook rule)")
+        hook = {k for k, v in _bool_hooks(dl).items() if v is False}          # silence hooks: boolean parameters that default to "loud"
+        if not hook:
+            raise AnalysisError("MockProvider._delete lost its silence hook (positive control of the hook rule)")
+        pos = [a.arg for a in dl.node.args.args[1:]]
         for f in ctx.prog.functions.values():
             if ".tests." in f.module.name:
                 continue
             for n in ctx.own_nodes(f):
                 if isinstance(n, ast.Call) and isinstance(n.func, ast.Attribute) and n.func.attr == "_delete":
-                    silent = [k for k in n.keywords if k.arg == "without_event" and not (isinstance(k.value, ast.Constant) and not k.value.value)] or \
-                             [a for a in n.args[1:2] if not (isinstance(a, ast.Constant) and not a.value)]
+                    silent = [k for k in n.keywords if k.arg in hook and not (isinstance(k.value, ast.Constant) and not k.value.value)] or \
+                             [a for i, a in enumerate(n.args) if i < len(pos) and pos[i] in hook and not (isinstance(a, ast.Constant) and not a.value)]
                     rep.check("C16.P4", "silent-delete|" + stmt_key(f, n), ctx.line(f, n), not silent, "deletes with its event",
                               "`%s` deletes an object of the mock tree without a delete event: an event-mirroring consumer keeps a phantom live id" % ast.unparse(n), func=f.qname)
 
